@@ -573,16 +573,32 @@ public:
   void dissociateNode(Nref nodeObject)
   {
     typename std::map<Nref, NodeGraphid>::iterator nodeToForget = NToGraphid_.find(nodeObject);
+    if (nodeToForget == NToGraphid_.end())
+      return; // already forgotten (e.g. through the graph's notification)
     graphidToN_.at(nodeToForget->second) = 00;
     NToGraphid_.erase(nodeToForget);
+    typename std::map<Nref, NodeIndex>::iterator indexToForget = NToIndex_.find(nodeObject);
+    if (indexToForget != NToIndex_.end())
+    {
+      indexToN_.at(indexToForget->second) = 00;
+      NToIndex_.erase(indexToForget);
+    }
   }
 
 
   void dissociateEdge(Eref edgeObject)
   {
     typename std::map<Eref, EdgeGraphid>::iterator edgeToForget = EToGraphid_.find(edgeObject);
+    if (edgeToForget == EToGraphid_.end())
+      return; // already forgotten (e.g. through the graph's notification)
     graphidToE_.at(edgeToForget->second) = 00;
     EToGraphid_.erase(edgeToForget);
+    typename std::map<Eref, EdgeIndex>::iterator indexToForget = EToIndex_.find(edgeObject);
+    if (indexToForget != EToIndex_.end())
+    {
+      indexToE_.at(indexToForget->second) = 00;
+      EToIndex_.erase(indexToForget);
+    }
   }
 
 
@@ -1484,6 +1500,12 @@ public:
         graphidToE_.at(*currEdge) = 00;
 
         EToGraphid_.erase(edgeObject);
+        typename std::map<Eref, EdgeIndex>::iterator indexToForget = EToIndex_.find(edgeObject);
+        if (indexToForget != EToIndex_.end())
+        {
+          indexToE_.at(indexToForget->second) = 00;
+          EToIndex_.erase(indexToForget);
+        }
       }
     }
   }
@@ -1502,6 +1524,12 @@ public:
         graphidToN_.at(*currNode) = 00;
 
         NToGraphid_.erase(nodeObject);
+        typename std::map<Nref, NodeIndex>::iterator indexToForget = NToIndex_.find(nodeObject);
+        if (indexToForget != NToIndex_.end())
+        {
+          indexToN_.at(indexToForget->second) = 00;
+          NToIndex_.erase(indexToForget);
+        }
       }
     }
   }
